@@ -125,7 +125,22 @@ def run_proofs(report, prop, modules, timeout_ms=None):
                 report.pending_proof_violations.append(
                     (f"obligation {mod}/table[{name}] refuted: table contents differ from the specification",
                      {"obligation": f"table[{name}]", "actual": repr(actual)[:800], "expected": repr(expected)[:800]}))
+    assumed = []
+    mod_assumptions = []
+    for mod, fns in modules:
+        cm = importlib.import_module(mod)
+        for a in getattr(cm, "ASSUMPTIONS", []):
+            if a not in mod_assumptions:
+                mod_assumptions.append(a)
+        for q in getattr(cm, "ASSUMED", []):
+            assumed.append(q)
     cov = report.coverage
+    cov.setdefault("checker_cmd", f"./check {prop} --tier {tier_name}")
+    tb = cov.setdefault("trusted_base", [])
+    for a in PY_ASSUMPTIONS + mod_assumptions + [f"assumed contract (not verified): {q}" for q in assumed]:
+        if a not in tb:
+            tb.append(a)
+    report.assumptions = list(dict.fromkeys(list(report.assumptions) + tb))
     cov["functions_under_contract"] = cov.get("functions_under_contract", []) + funcs
     cov["obligations"] = cov.get("obligations", 0) + tot
     cov["discharged"] = cov.get("discharged", 0) + disch
